@@ -909,6 +909,24 @@ pub fn run_shard(ctx: &mut Ctx) {
         }
         ctx.end_phase();
     }
+    if ctx.prop == "C02" {
+        // restarts inside walks in which update_state is an ordinary step
+        ctx.begin_phase(0.15);
+        let n = if ctx.tier == Tier::Quick { 120 } else { 10_000 };
+        for _ in 0..n {
+            if !ctx.time_left() {
+                break;
+            }
+            let (ws, _, _, c2) = crate::props::c16walk::walk_legal(r.next());
+            ctx.out.count("walk:walks", 1);
+            ctx.out.count("walk:restarts_compared", ws.restarts);
+            ctx.out.count("walk:update_state_calls", ws.update_states);
+            if let Some(v) = c2 {
+                ctx.out.viol(v);
+            }
+        }
+        ctx.end_phase();
+    }
     if ctx.prop == "C06" || ctx.prop == "C16" {
         // a partially ordered vote type (the tuple votes of the main harness types are totally ordered)
         ctx.begin_phase(0.2);
